@@ -88,7 +88,8 @@ def rank_one(a, sigma):
 def psd_target(rng, lead, D, kind=None, cond_hi=1e6):
     """Hermitian positive semidefinite target PSD (non-zero): full rank, rank one, or rank r < D"""
     lead = tuple(lead)
-    kind = kind or str(rng.choice(['full', 'full', 'rank-one', 'low-rank', 'rank-one+floor']))
+    kind = kind or str(rng.choice(['full', 'full', 'full', 'rank-one', 'rank-one', 'low-rank', 'low-rank',
+                                   'rank-one+floor', 'rank-one+floor', 'identity']))
     n = int(np.prod(lead)) if lead else 1
     mats = []
     for _ in range(n):
@@ -102,6 +103,8 @@ def psd_target(rng, lead, D, kind=None, cond_hi=1e6):
             b = cnormal(rng, (D, r))
             m = b @ b.conj().T
             m = (m + m.conj().T) / 2
+        elif kind == 'identity':          # degenerate: every vector is a principal eigenvector
+            m = 10 ** rng.uniform(-2, 2) * np.eye(D) + 0j
         else:
             a, _ = steering(rng, (D,))
             m = rank_one(a, 1.0) + 1e-3 * np.eye(D)
@@ -149,10 +152,9 @@ def projector(w):
 
 
 def sin_angle(u, v):
-    """sine of the angle between the complex lines spanned by u and v"""
-    c = abs(np.vdot(u, v)) / (np.linalg.norm(u) * np.linalg.norm(v))
-    return float(np.sqrt(max(0.0, 1.0 - min(1.0, c) ** 2))) if c < 0.999999 else float(
-        np.linalg.norm(u / np.linalg.norm(u) - (np.vdot(v, u) / abs(np.vdot(v, u))) * v / np.linalg.norm(v)))
+    """sine of the angle between the complex lines spanned by u and v (accurate for small angles)"""
+    un, vn = u / np.linalg.norm(u), v / np.linalg.norm(v)
+    return float(np.linalg.norm(un - vn * np.vdot(vn, un)))
 
 
 def min_power_competitors(rng, a, phi, n_random=4, pg_steps=60):
